@@ -91,6 +91,8 @@ func (g *fgen) findPkgByName(from *types.Package, name string) *types.Package {
 
 func (g *fgen) resolveType(ct *ctype, pkg *types.Package) (types.Type, error) {
 	switch ct.kind {
+	case "func":
+		return types.NewSignatureType(nil, nil, nil, nil, nil, false), nil
 	case "ptr":
 		t, err := g.resolveType(ct.elem, pkg)
 		if err != nil {
